@@ -19,7 +19,8 @@ a = ap.parse_args()
 chk = importlib.import_module(f'ahrs_sim.checks.{a.pid.lower()}').CHECK
 scn = json.load(open(a.replay))['scenario'] if a.replay else chk.gen(a.seed, a.tier)
 res = chk.run(scn)
-hit = [v for v in res['violations'] if v['component'] == a.component and v['symptom'] == a.symptom and a.trigger in ('any', v.get('trigger'))]
+import fnmatch
+hit = [v for v in res['violations'] if v['component'] == a.component and v['symptom'] == a.symptom and (a.trigger == 'any' or fnmatch.fnmatchcase(str(v.get('trigger')), a.trigger))]
 if not hit:
     print('scenario does not produce that violation; got', [(v['component'], v['symptom'], v.get('trigger')) for v in res['violations']])
     sys.exit(1)
